@@ -42,6 +42,7 @@ type FuncContract struct {
 	LoopInv      map[int][]Clause
 	LoopDec      map[int]ast.Expr
 	LoopStep     map[int][]Clause
+	LoopAssume   map[int][]Clause // facts about values the loop receives from outside (channel messages), assumed at the head
 	StreamInv    map[int][]Clause
 	StreamAssume map[int][]Clause
 	AscendInv    map[int][]Clause
@@ -49,6 +50,12 @@ type FuncContract struct {
 	StreamStep   map[int]map[string][]Clause // per stream, per input trace (IN | INM | END): per-event transfer obligations
 	Flags        map[string]bool // pure, inline, trusted
 	Lets         []Clause        // ghost definitions evaluated at entry: let name: expr
+}
+
+type ChanClause struct {
+	Clause
+	Pkg *types.Package
+	Ty  string
 }
 
 type FindingClass struct {
@@ -74,12 +81,13 @@ type Contracts struct {
 	Specs   map[string]*SpecFn
 	Classes map[string]*FindingClass
 	Lemmas  map[string]*Lemma
+	ChanMsg map[string][]ChanClause // element type (as written) -> facts assumed of every value received from such a channel
 	Order   []string // keys of Funcs in file order
 	LemmaOrder []string
 }
 
 func newContracts() *Contracts {
-	return &Contracts{Funcs: map[string]*FuncContract{}, Specs: map[string]*SpecFn{}, Classes: map[string]*FindingClass{}, Lemmas: map[string]*Lemma{}}
+	return &Contracts{Funcs: map[string]*FuncContract{}, Specs: map[string]*SpecFn{}, Classes: map[string]*FindingClass{}, Lemmas: map[string]*Lemma{}, ChanMsg: map[string][]ChanClause{}}
 }
 
 func (cs *Contracts) forFunc(pkg *types.Package, sel string) *FuncContract {
@@ -247,7 +255,7 @@ func (cs *Contracts) parseFile(text string, pkg *types.Package, file string) (er
 		switch {
 		case strings.HasPrefix(l, "func "):
 			sel := strings.TrimSpace(l[5:])
-			cur = &FuncContract{Selector: sel, Pkg: pkg, File: file, LoopInv: map[int][]Clause{}, LoopDec: map[int]ast.Expr{}, LoopStep: map[int][]Clause{}, StreamInv: map[int][]Clause{}, StreamAssume: map[int][]Clause{}, StreamStep: map[int]map[string][]Clause{}, AscendInv: map[int][]Clause{}, AscendStep: map[int][]Clause{}, Flags: map[string]bool{}}
+			cur = &FuncContract{Selector: sel, Pkg: pkg, File: file, LoopInv: map[int][]Clause{}, LoopDec: map[int]ast.Expr{}, LoopStep: map[int][]Clause{}, LoopAssume: map[int][]Clause{}, StreamInv: map[int][]Clause{}, StreamAssume: map[int][]Clause{}, StreamStep: map[int]map[string][]Clause{}, AscendInv: map[int][]Clause{}, AscendStep: map[int][]Clause{}, Flags: map[string]bool{}}
 			curLemma = nil
 			key := pkg.Path() + "|" + sel
 			if _, dup := cs.Funcs[key]; dup {
@@ -298,6 +306,8 @@ func (cs *Contracts) parseFile(text string, pkg *types.Package, file string) (er
 				cur.LoopDec[n] = parseSpecExpr(strings.SplitN(l, "decreases", 2)[1])
 			case "step":
 				cur.LoopStep[n] = append(cur.LoopStep[n], mkClause(strings.SplitN(l, " step ", 2)[1]))
+			case "assumes":
+				cur.LoopAssume[n] = append(cur.LoopAssume[n], mkClause(strings.SplitN(l, " assumes ", 2)[1]))
 			default:
 				panic("unknown loop clause: " + l)
 			}
@@ -332,6 +342,14 @@ func (cs *Contracts) parseFile(text string, pkg *types.Package, file string) (er
 			default:
 				panic("unknown stream clause: " + l)
 			}
+		case strings.HasPrefix(l, "chan "):
+			// chan T assumes name: expr   (msg = the received value)
+			f := strings.Fields(l)
+			rest := strings.SplitN(l, " assumes ", 2)
+			if len(f) < 3 || len(rest) != 2 {
+				panic("bad chan clause: " + l)
+			}
+			cs.ChanMsg[f[1]] = append(cs.ChanMsg[f[1]], ChanClause{Clause: mkClause(rest[1]), Pkg: pkg, Ty: f[1]})
 		case strings.HasPrefix(l, "finding-class "):
 			lab, body := splitLabel(l[14:])
 			if lab == "" {
@@ -503,6 +521,16 @@ func (env *SpecEnv) lookupVar(name string) SV {
 	}
 	if name == "nil" {
 		return nil
+	}
+	// a local variable of the function that is not in scope on this path (declared later): arbitrary
+	if env.fr.fn != nil {
+		for _, b := range env.fr.fn.Blocks {
+			for _, ins := range b.Instrs {
+				if a, ok := ins.(*ssa.Alloc); ok && a.Comment == name {
+					return env.e.freshSV(a.Type().(*types.Pointer).Elem(), "outofscope."+name, tTrue, false)
+				}
+			}
+		}
 	}
 	panic("spec: unknown identifier " + name)
 }
